@@ -470,6 +470,27 @@ example : (∀ a ∈ [exD1, exD2], ∀ f ∈ a.fields, f.2.1 = DT.f8) ∧ (∀ a
   · simp [exD1, exD2]
   · simp [exD1, exD2, mergedDescr, DArr.descr]
 
+/-- "A value was contributed" and "nothing was contributed" are told apart by the contributions, never by the
+value that has accumulated: wherever some input places a non-NaN value — also an image of zeros, values that cancel
+one another, values that equal the fill — the pixel is a number and does not depend on the fill; wherever no input
+places one it is the fill.  All modes. -/
+theorem contributed_pixel_ignores_fill (m : Mode) (fill fill' : V) (arrs : List Arr) (p : Idx) :
+    (contribs arrs p ≠ [] → (mech m fill arrs p).isSome ∧ mech m fill arrs p = mech m fill' arrs p) ∧
+    (contribs arrs p = [] → mech m fill arrs p = fill) := by
+  rw [pixel_spec, pixel_spec]
+  unfold spec
+  cases h : contribs arrs p with
+  | nil => simp
+  | cons c cs => cases m <;> simp
+
+/-- an image of zeros alone on its pixels: sum 0, not the fill (hypothesis of `contributed_pixel_ignores_fill` met) -/
+def exZ : Arr := { off := [3, 0], shape := [1, 2], get := fun _ => some 0 }
+
+example : contribs [exA, exZ] [3, 1] ≠ [] ∧ mech .sum none [exA, exZ] [3, 1] = some 0 ∧
+    mech .sum (some 10) [exA, exZ] [3, 1] = some 0 ∧ contribs [exA, exZ] [3, 2] = [] ∧
+    mech .sum (some 10) [exA, exZ] [3, 2] = some 10 := by
+  decide +kernel
+
 /-- the mechanism before the repair is wrong: with a finite fill it adds the fill into the sum
 (11 instead of 1 where only the first image contributes), and a pixel covered only by a NaN becomes
 0 instead of the fill -/
